@@ -72,6 +72,10 @@ type Check struct {
 	Plan    func(tier string) Plan
 	Worker  func(w *WorkerCtx)
 	OnCrash func(c Crash, res *Result) // nil: any crash is inconclusive
+	// PostBatch, when set, inspects the working directory of a finished worker (e.g. sanitizer logs) before it is removed.
+	// ExitOK lists worker exit codes that are not crashes (e.g. 66: the race detector's exit code).
+	PostBatch func(batch int, dir string, res *Result)
+	ExitOK    []int
 }
 
 var Registry = map[string]*Check{}
@@ -156,6 +160,16 @@ func RunParent(c *Check, tier string, seed int64) int {
 			res, lerr := LoadResult(out)
 			mu.Lock()
 			defer mu.Unlock()
+			if c.PostBatch != nil {
+				c.PostBatch(b, dir, total)
+			}
+			if ee, ok := werr.(*exec.ExitError); ok && lerr == nil && !timedOut {
+				for _, code := range c.ExitOK {
+					if ee.ExitCode() == code {
+						werr = nil
+					}
+				}
+			}
 			if werr == nil && lerr == nil && !timedOut {
 				total.Merge(res, 12)
 				return
